@@ -127,7 +127,9 @@ def install(reg, src):
     if "optyx.core.compiler:_compile_cached" in cached:
         from .compiler_c import fresh_var_indices, index_term, point_for
 
-        @reg.contract("lemma:memo:_compile_cached", props=["C14", "C12"], cases={"key": KEY_KINDS})
+        # key kind Parameter is excluded by the precondition of _compile_cached ("a Parameter root is never memoised"),
+        # an obligation of every call site
+        @reg.contract("lemma:memo:_compile_cached", props=["C14", "C12"], cases={"key": [k for k in KEY_KINDS if k != "Parameter"]})
         def _(c):
             sp = Spec(c.ip)
             ip = c.ip
